@@ -117,11 +117,11 @@ static long run_case(int ci, long k, long j) {
     Res res; memset(&res, 0, sizeof res);
     req_no = 0; fail_a = k > 0 ? k : -1; fail_b = j > 0 ? j : -1; live = 0; nblocks = 0; h_n = 0;
     int crashed = 0; n_runs++;
-    int jumped = 0;
+    int jumped = 0; h_jump = 0;
     if (sigsetjmp(jb, 1) == 0) { armed = 1;
         if (g_jump) { if (sigsetjmp(hjb, 1) == 0) { h_jump = 1; tracking = 1; cases[ci].fn(&res); tracking = 0; h_jump = 0; } else { jumped = 1; tracking = 0; } }
         else { tracking = 1; cases[ci].fn(&res); tracking = 0; }
-        armed = 0; } else { crashed = 1; tracking = 0; }
+        armed = 0; } else { crashed = 1; tracking = 0; h_jump = 0; }
     long count = req_no; int injected = (k > 0 && k <= count) || (j > 0 && j <= count);
     if (verbose) printf("case %s fail@%ld,%ld: requests=%ld crashed=%d rc=%ld failure_indicated=%d dest_cleared=%d live_blocks=%ld handler=%d\n", cases[ci].name, k, j, count, crashed, res.rc, res.failind, res.dest_cleared, live, h_n);
     if (crashed) { viol(cases[ci].name, "crash", k, j, count); return count; }
